@@ -12,8 +12,9 @@ Open Scope R_scope.
 Theorem maxabs_scales c s : 0 <= c -> maxabs (scale c s) = c * maxabs s.
 Proof. exact (Pipeline.maxabs_scale c s). Qed.
 
-(* non-reversal samples and repeated values (inserted between neighbours u, v with u <= y <= v or v <= y <= u) do
-   not change the maximum absolute load, hence no quantity derived from it *)
+(* non-reversal samples and repeated values (inserted between neighbours u, v with u <= y <= v or v <= y <= u; the
+   last sample of the sequence is not repeated: see Pipeline.ins1) do not change the maximum absolute load, hence no
+   quantity derived from it *)
 Theorem maxabs_refinement_invariant s s' : refines s s' -> maxabs s' = maxabs s.
 Proof. exact (Pipeline.maxabs_refines s s'). Qed.
 
@@ -83,10 +84,10 @@ Section Stages.
   Qed.
 
   (* ---- sample insensitivity (P_RAM and P_RAJ result of the point) *)
-  Theorem refine_insensitive p s' : refines (pseq p) s' ->
+  Theorem refine_insensitive p s' : 0 < maxabs (pseq p) -> refines (pseq p) s' ->
     single LC closedLC runLC struct evalM wM accM resJ kown gamma cfac (s', snd p)
     = single LC closedLC runLC struct evalM wM accM resJ kown gamma cfac p.
-  Proof. exact (Pipeline.refine_insensitive LC closedLC runLC struct evalM wM accM resJ kown gamma cfac struct_refines p s'). Qed.
+  Proof. exact (Pipeline.refine_insensitive LC closedLC runLC struct evalM wM accM resJ kown gamma cfac struct_refines gamma_ok cfac_pos p s'). Qed.
 
   (* ---- failure probability: N_10 <= N_50 <= N_90 *)
   Variable beta : R -> R.
@@ -118,7 +119,7 @@ Theorem contracts_satisfiable :
   (forall c Z Z' s, 1 <= c -> 0 < maxabs s -> Z' <= Z ->
      lifeM R t_closed t_run t_struct t_evalM t_wM t_accM t_gamma t_cfac Z' (scale c s)
      <= lifeM R t_closed t_run t_struct t_evalM t_wM t_accM t_gamma t_cfac Z s) /\
-  (forall p s', refines (pseq p) s' ->
+  (forall p s', 0 < maxabs (pseq p) -> refines (pseq p) s' ->
      single R t_closed t_run t_struct t_evalM t_wM t_accM t_resJ t_kown t_gamma t_cfac (s', snd p)
      = single R t_closed t_run t_struct t_evalM t_wM t_accM t_resJ t_kown t_gamma t_cfac p) /\
   (forall M2 Z lf25 L, 0 <= Z ->
